@@ -1,9 +1,7 @@
-# Per-property sizing of the engines (DESIGN.md 2.4).  rc_cases is per process.
-# Budgets are case counts and generated sizes; budget_s only ends exploration ("inconclusive").
-PROPS = {
-    "C14": {
+# Sizing and claim for C14 (see props/__init__.py)
+SPEC = {
         "quick": {"rc_cases": 3000, "rc_procs": 4, "enum": True},
-        "thorough": {"rc_cases": 60000, "rc_procs": 8, "enum": True, "fuzz_secs": 0},
+        "thorough": {"rc_cases": 60000, "rc_procs": 8, "enum": True, "fuzz_secs": 20, "fuzz_workers": 4},
         "claim": {
             "category": "exploration",
             "technique": "bounded-exhaustive enumeration + rapidcheck generated arrays against an arithmetic RFC 4648 reference and decode/encode round trip",
@@ -11,5 +9,4 @@ PROPS = {
             "level_note": "Trusts harness/ref/ref_codecs.h (45 lines, table-free) as the reading of RFC 4648, and ASan/UBSan for memory errors; arrays longer than 400 bytes are not generated.",
         },
         "assumptions": ["reference encoders in harness/ref/ref_codecs.h are a correct reading of RFC 4648", "ASan/UBSan report every out-of-bounds access to the exact-size input and output blocks"],
-    },
-}
+    }
